@@ -14,7 +14,7 @@
 //   w G L          operator[](G).local() = L   (write through the returned reference; `skip` when G is absent)
 //   s | z | q      seqNo() | size() | state()
 //   p              dump by iteration
-//   L              GlobalLookupIndexSet(set): size and pair(i) for all i < size
+//   L              GlobalLookupIndexSet(set): size and pair(i) for all i < size (`?` where several pairs carry local number i)
 //   L M            GlobalLookupIndexSet(set, M) (only when every local number is < M, else `skip`)
 // Answer line: the observations after each op, joined by ';'.  A pair prints as g:l:a:p:v.
 #include <config.h>
@@ -319,19 +319,22 @@ struct Runner {
       if (gl->seqNo() != set.seqNo()) fail("GlobalLookupIndexSet::seqNo() differs");
       std::map<unsigned long, std::vector<Ent>> byLocal;
       for (auto& e : want) byLocal[e.l].push_back(e);
+      std::map<unsigned long, int> carriers;  // from the set itself: how many stored pairs carry this local number
+      for (auto& e : implAll()) carriers[e.l]++;
       std::vector<std::string> cells;
       for (std::size_t i = 0; i < gl->size(); ++i) {
         const auto* p = gl->pair(i);
-        cells.push_back(p ? entStr(entOf(*p)) : "-");
+        // which of several pairs with the same local number the table keeps is not part of the property: printed as `?`
+        cells.push_back(carriers[i] > 1 ? (p ? "?" : "-") : p ? entStr(entOf(*p)) : "-");
         auto f = byLocal.find(i);
         if (f == byLocal.end()) {
           if (p) fail("reverse lookup: pair(" + std::to_string(i) + ") set although no pair has this local number");
         } else {
           bool any = false;
           for (auto& c : f->second) any = any || (p && entStr(entOf(*p)) == entStr(c));
-          if (!any) fail("reverse lookup: pair(" + std::to_string(i) + ") = " + cells.back() + " expected " + entStr(f->second[0]));
+          if (!any) fail("reverse lookup: pair(" + std::to_string(i) + ") = " + (p ? entStr(entOf(*p)) : std::string("null")) + " expected " + entStr(f->second[0]));
           // forward lookup through the table's operator[] gives the same pair again
-          if (p && f->second.size() == 1 && !o.dupGlobals() && entStr(entOf((*gl)[p->global()])) != cells.back())
+          if (p && f->second.size() == 1 && !o.dupGlobals() && entStr(entOf((*gl)[p->global()])) != entStr(entOf(*p)))
             fail("reverse lookup: operator[] of the lookup set disagrees with pair()");
         }
       }
